@@ -143,7 +143,7 @@ E_LO = Fraction("2.718281828459045")
 E_HI = Fraction("2.718281828459046")
 
 
-def axioms_for(formulas, rounds=2, pair_limit=12):
+def axioms_for(formulas, rounds=2, pair_limit=12, level=2):
     """ground instances of the transcendental axiom schemas for the terms in formulas"""
     out = []
     done = set()
@@ -154,15 +154,16 @@ def axioms_for(formulas, rounds=2, pair_limit=12):
             _collect(f, acc, seen)
         new = []
 
-        def add(ax):
-            new.append(ax)
+        def add(ax, lv=1):
+            if lv <= level:
+                new.append(ax)
 
         if "pi" in acc and "pi" not in done:
             done.add("pi")
-            add(z3.And(PI > rv(PI_LO), PI < rv(PI_HI)))
+            add(z3.And(PI > rv(PI_LO), PI < rv(PI_HI)), 0)
         if "euler_e" in acc and "euler_e" not in done:
             done.add("euler_e")
-            add(z3.And(EULER > rv(E_LO), EULER < rv(E_HI)))
+            add(z3.And(EULER > rv(E_LO), EULER < rv(E_HI)), 0)
         for nm, terms in acc.items():
             if nm in ("pi", "euler_e"):
                 continue
@@ -174,40 +175,44 @@ def axioms_for(formulas, rounds=2, pair_limit=12):
             for t in uniq:
                 a = t.arg(0)
                 if nm == "sqrt":
-                    add(z3.Implies(a >= 0, z3.And(t >= 0, t * t == a)))
+                    add(z3.Implies(a >= 0, z3.And(t >= 0, t * t == a)), 0)
                     add(z3.Implies(a > 0, t > 0))
+                    if z3.is_app(a) and a.decl().kind() == z3.Z3_OP_MUL and a.num_args() == 2 \
+                            and not is_num_val(a.arg(0)) and not is_num_val(a.arg(1)):
+                        x_, y_ = a.arg(0), a.arg(1)
+                        add(z3.Implies(z3.And(x_ >= 0, y_ >= 0), t == _F1["sqrt"](x_) * _F1["sqrt"](y_)), 0)
                 elif nm == "exp":
-                    add(t > 0)
+                    add(t > 0, 0)
                     add(t >= 1 + a)
                     add(z3.Implies(a > 0, t > 1))
                     add(z3.Implies(a < 0, t < 1))
                     add((a == 0) == (t == 1))
                     add(_F1["log"](t) == a)
                 elif nm == "log":
-                    add(z3.Implies(a > 0, _F1["exp"](t) == a))
+                    add(z3.Implies(a > 0, _F1["exp"](t) == a), 0)
                     add(z3.Implies(a > 1, t > 0))
                     add(z3.Implies(z3.And(a > 0, a < 1), t < 0))
                     add(z3.Implies(a == 1, t == 0))
                     add(z3.Implies(a > 0, t <= a - 1))
                 elif nm in ("sin", "cos"):
                     s, c = _F1["sin"](a), _F1["cos"](a)
-                    add(s * s + c * c == 1)
+                    add(s * s + c * c == 1, 0)
                     add(z3.And(s >= -1, s <= 1, c >= -1, c <= 1))
                 elif nm == "tan":
                     s, c = _F1["sin"](a), _F1["cos"](a)
-                    add(z3.Implies(c != 0, t * c == s))
-                    add(s * s + c * c == 1)
+                    add(z3.Implies(c != 0, t * c == s), 0)
+                    add(s * s + c * c == 1, 0)
                 elif nm == "arcsin":
                     rng = z3.And(a >= -1, a <= 1)
                     add(z3.Implies(rng, z3.And(_F1["sin"](t) == a, t >= -PI / 2, t <= PI / 2,
-                                               _F1["cos"](t) == _F1["sqrt"](1 - a * a))))
+                                               _F1["cos"](t) == _F1["sqrt"](1 - a * a))), 0)
                     add(z3.Implies(z3.And(rng, a >= 0), t >= 0))
                     add(z3.Implies(z3.And(rng, a <= 0), t <= 0))
                     add((a == 0) == (t == 0)) if False else None
                 elif nm == "arccos":
                     rng = z3.And(a >= -1, a <= 1)
                     add(z3.Implies(rng, z3.And(_F1["cos"](t) == a, t >= 0, t <= PI,
-                                               _F1["sin"](t) == _F1["sqrt"](1 - a * a))))
+                                               _F1["sin"](t) == _F1["sqrt"](1 - a * a))), 0)
                 elif nm == "arctan":
                     add(z3.And(t > -PI / 2, t < PI / 2))
                     add(z3.Implies(a > 0, t > 0))
@@ -222,7 +227,7 @@ def axioms_for(formulas, rounds=2, pair_limit=12):
                                    z3.And(r * _F1["cos"](t) == x, r * _F1["sin"](t) == y)))
                 elif nm == "rpow":
                     x, y = t.arg(0), t.arg(1)
-                    add(z3.Implies(x > 0, t > 0))
+                    add(z3.Implies(x > 0, t > 0), 0)
                     add(z3.Implies(z3.And(x > 1, y > 0), t > 1))
                     add(z3.Implies(z3.And(x > 0, x < 1, y > 0), t < 1))
                     add(z3.Implies(z3.And(x >= 1, y >= 0), t >= 1))
@@ -237,7 +242,7 @@ def axioms_for(formulas, rounds=2, pair_limit=12):
                     if nm == "cosh":
                         add(t >= 1)
             # pairwise monotonicity (bounded number of pairs)
-            if nm in ("exp", "log", "sqrt", "arcsin", "arctan") and len(terms) > 1:
+            if level >= 2 and nm in ("exp", "log", "sqrt", "arcsin", "arctan") and len(terms) > 1:
                 us = []
                 ids = set()
                 for t in terms:
@@ -260,7 +265,7 @@ def axioms_for(formulas, rounds=2, pair_limit=12):
                         elif nm == "arcsin":
                             dom = z3.And(a >= -1, a <= 1, b >= -1, b <= 1)
                         add(z3.Implies(dom, z3.And((a < b) == (us[i] < us[j]), (a == b) == (us[i] == us[j]))))
-            if nm == "rpow" and len(terms) > 1:
+            if level >= 2 and nm == "rpow" and len(terms) > 1:
                 us = terms[:pair_limit]
                 for i in range(len(us)):
                     for j in range(i + 1, len(us)):
@@ -379,7 +384,9 @@ def deriv(e, x):
             u, v = ch
             du, dv = d(u), d(v)
             if _is_zero(dv):
-                return du / v
+                return du / v if not _is_zero(du) else z3.RealVal(0)
+            if _is_zero(du):
+                return -(u * dv) / (v * v)
             return (du * v - u * dv) / (v * v)
         if kind == z3.Z3_OP_POWER:
             b, p = ch
